@@ -1680,3 +1680,111 @@ Proof.
       * apply Z.eqb_neq in Eab. exact (ocell_final a b t G Ha Hb Eab).
     + intros a b H. rewrite Gd, Gs, Gm, H. auto.
 Qed.
+
+(* ------------------------------------------------------------------ *)
+(* a leaf without a taxon: AssertionError                              *)
+(* ------------------------------------------------------------------ *)
+Fixpoint safe_from (rows : list Z) (ops : list op) : bool :=
+  match ops with
+  | [] => true
+  | OFail :: _ => true
+  | OInit a _ :: r => safe_from (a :: rows) r
+  | OPair _ a _ _ _ :: r => memb a rows && safe_from rows r
+  end.
+
+Definition is_fail (o : op) : bool := match o with OFail => true | _ => false end.
+
+Lemma safe_from_mono ops : forall rows rows', incl rows rows' -> safe_from rows ops = true -> safe_from rows' ops = true.
+Proof.
+  induction ops as [|o ops IH]; intros rows rows' Hi H; [reflexivity|].
+  destruct o as [|a leaf|n a e1 e2 c]; simpl in *.
+  - reflexivity.
+  - eapply IH; [|exact H]. intros z [Hz|Hz]; [left; exact Hz | right; apply Hi; exact Hz].
+  - apply andb_true_iff in H. destruct H as [H1 H2]. apply andb_true_iff. split.
+    + apply memb_In. apply Hi. apply memb_In. exact H1.
+    + eapply IH; eassumption.
+Qed.
+
+Lemma safe_from_app p : forall q rows, safe_from rows p = true ->
+  (forall rows', incl rows rows' -> safe_from rows' q = true) -> safe_from rows (p ++ q) = true.
+Proof.
+  induction p as [|o p IH]; intros q rows Hp Hq; [apply Hq; apply incl_refl|].
+  destruct o as [|a leaf|n a e1 e2 c]; simpl in *.
+  - reflexivity.
+  - apply IH; [exact Hp|]. intros rows' Hi. apply Hq. intros z Hz. apply Hi. right. exact Hz.
+  - apply andb_true_iff in Hp. destruct Hp as [H1 H2]. rewrite H1. simpl. apply IH; assumption.
+Qed.
+
+Lemma safe_from_flat_map {A} (f : A -> list op) l :
+  (forall x rows, In x l -> safe_from rows (f x) = true) -> forall rows, safe_from rows (flat_map f l) = true.
+Proof.
+  induction l as [|x l IH]; intros H rows; [reflexivity|]. simpl. apply safe_from_app.
+  - apply H. left. reflexivity.
+  - intros rows' _. apply IH. intros y rows0 Hy. apply H. right. exact Hy.
+Qed.
+
+Lemma safe_from_blk rows n c1 r e1 : safe_from rows (blk n c1 r e1) = true.
+Proof.
+  unfold blk. destruct (pe_tax e1) as [a|]; [|reflexivity]. simpl.
+  assert (G : forall ops, (forall o, In o ops -> exists m e e2 c, o = OPair m a e e2 c) -> safe_from (a :: rows) ops = true).
+  { induction ops as [|o ops IHo]; intro H; [reflexivity|].
+    destruct (H o (or_introl eq_refl)) as [m [e [e2 [c ->]]]]. simpl. rewrite Z.eqb_refl. simpl.
+    apply IHo. intros o' Ho'. apply H. right. exact Ho'. }
+  apply G. intros o Ho. apply in_flat_map in Ho. destruct Ho as [c2 [_ Ho]]. apply in_map_iff in Ho.
+  destruct Ho as [e2 [<- _]]. eauto.
+Qed.
+
+Lemma safe_from_node_ops n ks : forall rows, safe_from rows (node_ops n (combine ks (map paths ks))) = true.
+Proof.
+  induction ks as [|c1 r IH]; intro rows; [reflexivity|].
+  rewrite node_ops_kids. apply safe_from_app; [|intros rows' _; apply IH].
+  apply safe_from_flat_map. intros e1 rows0 _. apply safe_from_blk.
+Qed.
+
+Lemma safe_from_all_ops : forall t rows, safe_from rows (all_ops t) = true.
+Proof.
+  induction t as [i x lb e ks IH] using tree_ind'. intro rows. simpl all_ops.
+  apply safe_from_app; [|intros rows' _; apply safe_from_node_ops].
+  apply safe_from_flat_map. intros c rows0 Hc. rewrite Forall_forall in IH. apply IH. exact Hc.
+Qed.
+
+Lemma safe_runs ops : forall s, inv s -> safe_from (dkeys (p_dist s)) ops = true ->
+  if existsb is_fail ops then run_ops ops s = Err AssertErr else exists s', run_ops ops s = Ok s'.
+Proof.
+  induction ops as [|o ops IH]; intros s I H.
+  - simpl. exists s. reflexivity.
+  - rewrite run_ops_cons. destruct o as [|a leaf|n a e1 e2 c]; simpl in H; simpl existsb.
+    + reflexivity.
+    + destruct (dmem a (p_dist s)) eqn:M.
+      * rewrite apply_init_skip by exact M. simpl bind. apply IH; [exact I|].
+        eapply safe_from_mono; [|exact H]. intros z [Hz|Hz]; [subst; apply dmem_In; exact M | exact Hz].
+      * destruct (apply_init_new s a leaf I M) as [s1 [E [I1 [Ed _]]]]. rewrite E. simpl bind. apply IH; [exact I1|].
+        rewrite Ed, dkeys_dset_new by exact M.
+        eapply safe_from_mono; [|exact H]. intros z [Hz|Hz]; apply in_app_iff; [right; left; exact Hz | left; exact Hz].
+    + apply andb_true_iff in H. destruct H as [H1 H2].
+      assert (M : dmem a (p_dist s) = true) by (apply dmem_In; apply memb_In; exact H1).
+      destruct (pe_tax e2) as [b|] eqn:Hb.
+      * destruct (apply_pair s n a e1 e2 c b I Hb M) as [s1 [E [I1 [Ed _]]]]. rewrite E. simpl bind. apply IH; [exact I1|].
+        destruct (tset2_spec a b (pe_len e1 + pe_len e2 + c) (p_dist s) M) as [T' [E' [K' _]]].
+        rewrite Ed in E'. inversion E'. subst T'. rewrite K'. exact H2.
+      * simpl apply_op. rewrite Hb. simpl bind. apply IH; assumption.
+Qed.
+
+Lemma untaxoned_leaf_fails t : t_kids t <> [] -> In None (leaf_taxa t) -> compile_from_tree t = Err AssertErr.
+Proof.
+  intros Hk Hn. destruct t as [i x lb e ks]. simpl in Hk. destruct ks as [|k r]; [congruence|].
+  unfold compile_from_tree. rewrite comp_correct. unfold comp_spec.
+  pose proof (safe_runs (all_ops (T i x lb e (k :: r))) pdm_empty inv_empty (safe_from_all_ops _ _)) as R.
+  assert (F : existsb is_fail (all_ops (T i x lb e (k :: r))) = true).
+  { change (all_ops (T i x lb e (k :: r)))
+      with (flat_map all_ops (k :: r) ++ node_ops i (combine (k :: r) (map paths (k :: r)))).
+    rewrite existsb_app. apply orb_true_iff. right.
+    rewrite leaf_taxa_node in Hn. apply in_flat_map in Hn. destruct Hn as [c [Hc Hnc]].
+    rewrite <- paths_tax in Hnc. apply in_map_iff in Hnc. destruct Hnc as [e1 [Et He1]].
+    clear R. revert Hc. generalize (k :: r). intro l. induction l as [|c1 rest IHl]; intro Hc; [destruct Hc|].
+    rewrite node_ops_kids, existsb_app. apply orb_true_iff. destruct Hc as [->|Hc].
+    - left. apply existsb_exists. exists OFail. split; [|reflexivity].
+      apply in_flat_map. exists e1. split; [exact He1|]. unfold blk. rewrite Et. left. reflexivity.
+    - right. apply IHl. exact Hc. }
+  rewrite F in R. rewrite R. reflexivity.
+Qed.
